@@ -71,6 +71,21 @@ def run(pid, tier, seed, extra_model=None):
         distinct.add(key)
         if pid == "C05" or any(nontriv(st) for st in s):
             nontrivial += 1
+    if pid == "C08":
+        # mainnet: the identity of a signed transaction is its signing hash while the block under construction is below
+        # 929 000 and the hash of its bytes from there on; the directed family parks below and drains at / above that height
+        base = 928994
+        extra = directed.c19_fork_family(base, tier)
+        if tier != "quick":
+            more, r = tracecheck.gen_schedules("c08_mainnet", "probe", 24, seed + 77, maxlen=42, prague=923369, base=base)
+            extra += more
+        tracecheck.VALIDATE_CFG[0] = "TraceRef_mainnet_rlp.cfg"
+        tracecheck.BASE[0] = base
+        try:
+            cov["mainnet_id_regime"] = tracecheck.run_corpus(pid, "c08_mainnet", extra, v, shards=8, net="mainnet", light=True)
+        finally:
+            tracecheck.VALIDATE_CFG[0] = "TraceRef.cfg"
+            tracecheck.BASE[0] = 0
     model = extra_model(tier, v) if extra_model else {}
     cov["model"] = model
     cov.update({
